@@ -29,6 +29,7 @@ RULE = ('cf: reference dates 1900-2100 in every spelling the parser lists '
         'evaluations = decode calls; distinct = digest of the spec.')
 RULE += (' Also: flags at uneven spacing (index-list selection) decoded with bounds; a re-dated file (TFLAG edited in place) synthesised a second time; IOAPI files opened from disk, bounds on.')
 RULE += (' A share of the gridded files is the IOAPI-class object the CAMx gridded READER (uamiv) returns for an image written by the independent codec (whole-hour steps up to 168 h, ETFLAG present, header completed by the class).')
+RULE += (' The module-level decoders coordutil.gettimes / gettimebnds (used by the dump with time strings, the evaluation tool and the ARL writer) are judged on the same files: CF time in the standard calendars (to the millisecond), IOAPI flags with TSTEP-defined upper edges, tau0/tau1.')
 ASSUMPTIONS = [
     'cftime 1.6.5 is an independent, correct implementation of CF time for '
     'the calendars used (years 1900-2100, so Julian/Gregorian mixing is not '
@@ -40,7 +41,8 @@ ASSUMPTIONS = [
     'skipped',
 ]
 HOOKS = ['getTimes.return', 'oracle.cftime', 'oracle.integer-calendar',
-         'date2num.return', 'time2idx.return', 'add_time_variable.return']
+         'date2num.return', 'time2idx.return', 'add_time_variable.return',
+         'gettimes.return']
 MIN_DISTINCT = {'quick': 1500, 'thorough': 20000}
 N = {'quick': 4000, 'thorough': 60000}
 YEARS = list(range(1899, 2102))
@@ -258,6 +260,34 @@ def run_cf_in(spec, res, d, h):
                exp[j] if j < len(exp) else None, len(exp), len(gt)),
             calendar=cal, unit=spec['unit'], bounds=spec['bounds'])
         return
+    if cal in (None, 'standard', 'gregorian', 'proleptic_gregorian') and \
+            not spec.get('disk'):
+        # the module-level decoder (used by the dump, the evaluation and the
+        # ARL writer); it knows the standard calendar only
+        try:
+            from PseudoNetCDF.coordutil import gettimes
+            g2 = [as_utc_tuple(t) for t in np.atleast_1d(gettimes(f))]
+            res.hook('gettimes.return')
+            want = [cf_tuple(t) for t in np.atleast_1d(cftime.num2date(
+                np.asarray(vals, 'f8'), '%s since %s' % (
+                    spec['unit'], spec['canon']), cal or 'standard'))]
+
+            def _us(t):
+                return (datetime.datetime(*t[:6]) - datetime.datetime(
+                    1, 1, 1)).total_seconds() * 1e6 + t[6]
+            worst = max([abs(_us(a) - _us(b)) for a, b in zip(g2, want)] +
+                        [0.0])
+            if len(g2) != len(want) or worst > 1000:
+                j = next((i for i, (a, b) in enumerate(zip(g2, want))
+                          if abs(_us(a) - _us(b)) > 1000), 0)
+                res.viol('wrong-instant:gettimes:cf',
+                         'units %r: coordutil.gettimes decodes value %r to '
+                         '%s, cftime says %s' % (units, vals[j], g2[j]
+                                                 if j < len(g2) else None,
+                                                 want[j]), calendar=cal,
+                         unit=spec['unit'])
+        except Exception as e:
+            res.note('gettimes-raised:%s' % type(e).__name__)
     if bounds:
         # decoding is a query: asking for the edges must not move the
         # instants a later call decodes
@@ -368,6 +398,32 @@ def run_ioapi_in(spec, res, d, h):
         res.note('getTimes-raised:%s' % type(e).__name__)
         res.ev(dg, False, facets + ['raised'])
         return
+    if 'TFLAG' in f.variables and not problems:
+        # the module-level decoders (dump with time strings, evaluation,
+        # ARL writer) on the same flags
+        try:
+            from PseudoNetCDF.coordutil import gettimes, gettimebnds
+            g2 = [as_utc_tuple(t)[:6] for t in gettimes(f)]
+            res.hook('gettimes.return')
+            if g2 != exp:
+                j = next((i for i, (a, b) in enumerate(zip(g2, exp))
+                          if a != b), 0)
+                problems.append('coordutil.gettimes()[%d] = %s, the flags '
+                                'say %s' % (j, g2[j] if j < len(g2) else None,
+                                            exp[j]))
+            b2 = gettimebnds(f)
+            res.hook('gettimes.return')
+            lo = [as_utc_tuple(t)[:6] for t in b2[:, 0]]
+            hi = [as_utc_tuple(t)[:6] for t in b2[:, 1]]
+            ehi = [gen_ioapi.jd_tuple(*gen_ioapi.jd_add(
+                fs['sdate'], fs['stime'], (i + 1) * dtsec))
+                for i in range(fs['nt'])]
+            if lo != exp or hi != ehi:
+                problems.append('coordutil.gettimebnds()[0] = %s .. %s, the '
+                                'flags and TSTEP say %s .. %s'
+                                % (lo[:1], hi[:1], exp[:1], ehi[:1]))
+        except Exception as e:
+            res.note('gettimes-raised:%s' % type(e).__name__)
     if spec['mode'] == 'synth':
         try:
             add_time_variables(f)
@@ -539,6 +595,27 @@ def run_tau(spec, res):
                 if gb != wantb:
                     problems.append('getTimes(bounds=True) = %s, tau0/tau1 '
                                     'say %s' % (gb[-2:], wantb[-2:]))
+            try:
+                # the module-level decoders on the same file
+                from PseudoNetCDF.coordutil import gettimes, gettimebnds
+                g2 = [as_utc_tuple(t)[:6] for t in gettimes(f)]
+                res.hook('gettimes.return')
+                if g2 != want:
+                    problems.append('coordutil.gettimes() = %s, expected %s'
+                                    % (g2[:3], want[:3]))
+                if spec['via'] == 'memory':
+                    b2 = gettimebnds(f)
+                    res.hook('gettimes.return')
+                    lo = [as_utc_tuple(t)[:6] for t in b2[:, 0]]
+                    hi = [as_utc_tuple(t)[:6] for t in b2[:, 1]]
+                    whi = [tuple((base + datetime.timedelta(
+                        hours=h)).timetuple()[:6]) for h in tau1]
+                    if lo != want or hi != whi:
+                        problems.append('coordutil.gettimebnds() = %s..%s, '
+                                        'tau0/tau1 say %s..%s'
+                                        % (lo[:2], hi[:2], want[:2], whi[:2]))
+            except Exception as e:
+                res.note('gettimes-raised:%s' % type(e).__name__)
         except Exception as e:
             res.hook('getTimes.return')
             res.note('getTimes-raised:%s' % type(e).__name__)
